@@ -283,7 +283,12 @@ func genC08(repo string) (string, error) {
 	o.strList("replace_guards", guards, "builder.go planReplace: if-conditions, source order")
 	// full shape of the plan alternatives: loops, guards, which candidates reach comparePlan
 	planCalls := set("planReplace", "planPromotePeer", "planDemotePeer", "planRemovePeer", "planAddPeer",
-		"planReplaceLeaders", "comparePlan", "allowLeader", "IsEmpty")
+		"planReplaceLeaders", "comparePlan", "allowLeader", "allowLeaderAfter", "IsEmpty")
+	// allowLeaderAfter: allowLeader evaluated with another store as the current leader (saved, set, restored)
+	if err := o.skeleton(f, "Builder", "allowLeaderAfter", "skel_allowLeaderAfter",
+		goast.SkelOpt{Calls: set("allowLeader"), Assigns: set("currentLeaderStoreID", "local1"), Conds: true}); err != nil {
+		return "", err
+	}
 	for _, fn := range []string{"peerPlan", "planReplace", "planReplaceLeaders", "planPromotePeer", "planDemotePeer", "planRemovePeer", "planAddPeer"} {
 		if err := o.skeleton(f, "Builder", fn, "skel_"+fn, goast.SkelOpt{Calls: planCalls, Conds: true, Branches: true}); err != nil {
 			return "", err
